@@ -519,6 +519,111 @@ def run_multi_data(ctx):
     ctx.coverage['evaluations'] += len(jobs)
 
 
+def run_entry_spellings(ctx):
+    """(a) the same document text through the three entry points (a file, stdin, a --payload entry): block YAML whose top-level
+    collection is indented, leading blank lines / comment lines / a document marker, trailing blanks, CRLF - the verdict must not
+    depend on the entry point; (b) documents of the shapes the console reporters special-case (a Terraform plan: `resource_changes`
+    and no `Resources`; a CloudFormation template; neither) with rules that all PASS or SKIP, and with a failing rule: plain
+    `-o json` / `-o yaml` must carry the same rule sets as --structured."""
+    import yaml
+    rules = 'rule has_colors {\n  colors[*] == /^(blue|green)$/\n}\nrule sized when size exists {\n  size <= 10\n}\n'
+    rules_seq = 'rule all_known {\n  this[*] == /^(blue|green)$/\n}\n'
+    texts = {
+        'flush-mapping': ('colors:\n  - blue\n  - green\nsize: 5\n', rules),
+        'indented-mapping': ('  colors:\n    - blue\n    - green\n  size: 5\n', rules),
+        'indented-sequence': ('  - blue\n  - green\n', rules_seq),
+        'leading-blank-lines': ('\n\n  colors:\n    - blue\n  size: 50\n', rules),
+        'leading-comment': ('# a comment\ncolors:\n  - blue\nsize: 5\n', rules),
+        'document-marker': ('---\n  colors: [blue]\n  size: 5\n', rules),
+        'trailing-blanks': ('colors: [blue, red]   \nsize: 5   \n\n\n', rules),
+        'crlf': ('colors:\r\n  - blue\r\nsize: 50\r\n', rules),
+        'json-indented': ('   {"colors": ["blue"],\n      "size": 5}\n', rules),
+    }
+    jobs, meta = [], []
+    for lab, (text, rl) in texts.items():
+        d = os.path.join(ctx.wd, 'es_' + lab)
+        e2e.write_files(d, {'r.guard': rl, 'd.yaml': text})
+        for mlab, flags in (('s-json', ['--structured', '-o', 'json', '-S', 'none']), ('console', ['-S', 'all'])):
+            jobs.append({'args': ['validate', '-r', 'r.guard', '-d', 'd.yaml'] + flags, 'cwd': d}); meta.append(('entry', lab, mlab, 'file'))
+            jobs.append({'args': ['validate', '-r', 'r.guard'] + flags, 'cwd': d, 'stdin': text.encode()}); meta.append(('entry', lab, mlab, 'stdin'))
+            jobs.append({'args': ['validate', '--payload'] + flags, 'cwd': d, 'stdin': json.dumps({'rules': [rl], 'data': [text]}).encode()}); meta.append(('entry', lab, mlab, 'payload'))
+    shapes = {
+        'tf-plan': {'resource_changes': [{'address': 'aws_s3_bucket.b', 'type': 'aws_s3_bucket', 'change': {'after': {'size': 5}}}], 'x': 1},
+        'cfn': {'Resources': {'b': {'Type': 'AWS::S3::Bucket', 'Properties': {'size': 5}}}, 'x': 1},
+        'plain': {'x': 1, 'items': [{'size': 5}]},
+    }
+    rsets = {'all-pass-or-skip': 'rule p {\n  x == 1\n}\nrule s when x == 2 {\n  x == 3\n}\n',
+             'one-fails': 'rule p {\n  x == 1\n}\nrule f {\n  x == 2 <<wrong x>>\n}\nrule s when x == 2 {\n  x == 3\n}\n',
+             'all-skip': 'rule s when x == 2 {\n  x == 3\n}\n'}
+    for slab, doc in shapes.items():
+        for rlab, rl in rsets.items():
+            d = os.path.join(ctx.wd, 'sh_%s_%s' % (slab, rlab))
+            e2e.write_files(d, {'r.guard': rl, 'd.json': json.dumps(doc, indent=1)})
+            for mlab, flags in (('s-json', ['--structured', '-o', 'json', '-S', 'none']), ('o-json', ['-o', 'json', '-S', 'none']), ('o-yaml', ['-o', 'yaml', '-S', 'none']),
+                                ('o-json-all', ['-o', 'json', '-S', 'all'])):
+                jobs.append({'args': ['validate', '-r', 'r.guard', '-d', 'd.json'] + flags, 'cwd': d}); meta.append(('shape', slab + '/' + rlab, mlab, 'file'))
+    res = dict(zip(meta, e2e.run_many(jobs)))
+    n = 0
+    for lab in texts:
+        for mlab in ('s-json', 'console'):
+            n += 1
+            fc, fo, fe = res[('entry', lab, mlab, 'file')]
+            fsets = None
+            if mlab == 's-json' and fc in (0, 19):
+                try:
+                    fsets = sets_from_report(json.loads(fo.decode())[0])
+                except Exception:
+                    fsets = None
+            for entry in ('stdin', 'payload'):
+                c, so, se = res[('entry', lab, mlab, entry)]
+                info = {'class': 'entry-point', 'layout': lab, 'mode': mlab, 'entry': entry, 'text': texts[lab][0], 'rules': texts[lab][1],
+                        'stdout': so[:400].decode('utf-8', 'replace'), 'stderr': se[-300:].decode('utf-8', 'replace')}
+                if c != fc:
+                    ctx.failing('document text (%s) given as a file exits %s, the same text through %s exits %s (%s)' % (lab, fc, entry, c, mlab), info, found=True)
+                elif fsets is not None:
+                    try:
+                        s2 = sets_from_report(json.loads(so.decode())[0])
+                    except Exception as e:
+                        ctx.failing('%s (%s): output is not a well-formed report: %s' % (entry, lab, e), info, found=True)
+                        continue
+                    if s2 != fsets:
+                        ctx.failing('document text (%s): rule sets %s from a file, %s through %s' % (lab, fsets, s2, entry), info, found=True)
+    for slab in shapes:
+        for rlab in rsets:
+            n += 1
+            key = slab + '/' + rlab
+            c0, so0, se0 = res[('shape', key, 's-json', 'file')]
+            try:
+                ref = sets_from_report(json.loads(so0.decode())[0])
+            except Exception as e:
+                ctx.failing('--structured -o json on a %s document is not a well-formed report: %s' % (slab, e), {'class': 'format-independence', 'shape': key}, found=True)
+                continue
+            for mlab in ('o-json', 'o-yaml', 'o-json-all'):
+                c, so, se = res[('shape', key, mlab, 'file')]
+                info = {'class': 'format-independence', 'shape': key, 'mode': mlab, 'rules': rsets[rlab], 'doc': shapes[slab], 'stdout': so[:500].decode('utf-8', 'replace')}
+                if c != c0:
+                    ctx.failing('%s on a %s document exits %s, --structured -o json exits %s' % (mlab, key, c, c0), info, found=True)
+                    continue
+                text = so.decode('utf-8', 'replace')
+                try:
+                    if mlab == 'o-yaml':
+                        recs = [x for x in yaml.safe_load_all(text) if x is not None]
+                    else:
+                        recs = split_json_docs(text)
+                    reps = [x for x in recs if isinstance(x, dict) and 'not_compliant' in x]
+                    recs = [x for x in recs if isinstance(x, dict) and ('container' in x or 'children' in x)]
+                    got = sets_from_report(reps[0]) if reps else (sets_from_record(recs[0]) if recs else None)
+                except Exception as e:
+                    got = None
+                if got is None:
+                    ctx.failing('%s on a %s document prints no report (the file status and the rule sets go unreported)' % (mlab, key), info, found=True)
+                elif any(got[k] != ref[k] for k in ('PASS', 'FAIL', 'SKIP')) or (got['status'] and got['status'] != ref['status']):
+                    ctx.failing('%s on a %s document: rule sets %s, --structured -o json %s' % (mlab, key, got, ref), info, found=True)
+    ctx.coverage['entry_and_shape_groups'] = n
+    ctx.coverage['evaluations'] += len(jobs)
+    return n
+
+
 def run(ctx):
     ctx.build(cli=True)
     pr = ctx.proofs('C07')
@@ -527,6 +632,7 @@ def run(ctx):
     run_mixed(ctx)
     run_multi(ctx)
     run_multi_data(ctx)
+    run_entry_spellings(ctx)
     ctx.coverage['distinct_nontrivial'] = n
     ctx.coverage['rule'] = ('scenario = generated rules file x document (JSON-compatible), run in 18 configurations (console summary with -S all/pass/fail/skip/none, '
                             '-v, -p, -o json, -o yaml, --structured json/yaml/sarif/junit, stdin, --payload) and through run_checks (verbose and not); distinct = '
